@@ -6,7 +6,7 @@
    tied to the C by the correspondence run of bin/vcheck C17. *)
 From Coq Require Import ZArith List Bool.
 From A1 Require Import Base.Bytes Leaf.IntegerConv Leaf.StrtoxProofs Leaf.Decimal
-  Leaf.Oid Leaf.OidProofs Leaf.CivilTime Leaf.CivilTimeProofs Leaf.GTime Leaf.GTimeProofs.
+  Leaf.Oid Leaf.OidProofs Leaf.OidSlots Leaf.OidSlotsProofs Leaf.CivilTime Leaf.CivilTimeProofs Leaf.GTime Leaf.GTimeProofs.
 Import ListNotations.
 Local Open Scope Z_scope.
 
@@ -89,6 +89,124 @@ Theorem C17_single_arc_wraps : forall xs l rest,
   get_single_arc (xs ++ l :: rest) = GOk (subid_value (xs ++ [l]) mod two32) (zlen xs + 1) rest.
 Proof. exact get_single_arc_wraps. Qed.
 Print Assumptions C17_single_arc_wraps.
+
+(* ---------------- caller-supplied capacity (Leaf/OidSlots.v) ----------------
+   OBJECT_IDENTIFIER_get_arcs / RELATIVE_OID_get_arcs / OBJECT_IDENTIFIER_parse_arcs
+   take the caller's array and its number of slots.  [..._arr bs arr] is the
+   model with that array as a parameter (length arr = arc_slots, contents
+   arbitrary); [..._into bs slots] = (returned count, first min(count, slots)
+   cells) on an array that started out blank. *)
+
+(* for EVERY contents octet string and EVERY capacity: the returned count is
+   that of the capacity-free model (so it does not depend on the capacity,
+   failure included) and the stored prefix is the first [slots] arcs *)
+Theorem C17_get_arcs_into : forall bs slots,
+  get_arcs_into bs slots =
+  match get_arcs bs with OArcs l => Some (length l, firstn slots l) | _ => None end.
+Proof. exact get_arcs_into_spec. Qed.
+Print Assumptions C17_get_arcs_into.
+
+Theorem C17_reloid_get_arcs_into : forall bs slots,
+  reloid_get_arcs_into bs slots =
+  match reloid_get_arcs bs with OArcs l => Some (length l, firstn slots l) | _ => None end.
+Proof. exact reloid_get_arcs_into_spec. Qed.
+Print Assumptions C17_reloid_get_arcs_into.
+
+Theorem C17_get_arcs_count_independent : forall bs s1 s2,
+  option_map fst (get_arcs_into bs s1) = option_map fst (get_arcs_into bs s2) /\
+  option_map fst (reloid_get_arcs_into bs s1) = option_map fst (reloid_get_arcs_into bs s2).
+Proof. exact get_arcs_count_independent. Qed.
+Print Assumptions C17_get_arcs_count_independent.
+
+(* the caller's array, whatever it held: same length afterwards (nothing is
+   written beyond the capacity), the first min(n, slots) cells are the first
+   arcs, every cell from index n on is untouched *)
+Theorem C17_get_arcs_array_contract : forall bs arr l, get_arcs bs = OArcs l ->
+  exists arr', get_arcs_arr bs arr = IArcs (length l) arr' /\
+               length arr' = length arr /\
+               firstn (Nat.min (length l) (length arr)) arr' = firstn (length arr) l /\
+               skipn (length l) arr' = skipn (length l) arr.
+Proof. exact get_arcs_arr_contract. Qed.
+Print Assumptions C17_get_arcs_array_contract.
+
+Theorem C17_reloid_get_arcs_array_contract : forall bs arr l, reloid_get_arcs bs = OArcs l ->
+  exists arr', reloid_get_arcs_arr bs arr = IArcs (length l) arr' /\
+               length arr' = length arr /\
+               firstn (Nat.min (length l) (length arr)) arr' = firstn (length arr) l /\
+               skipn (length l) arr' = skipn (length l) arr.
+Proof. exact reloid_get_arcs_arr_contract. Qed.
+Print Assumptions C17_reloid_get_arcs_array_contract.
+
+(* set the arcs, read them back into an array of any size *)
+Theorem C17_oid_roundtrip_slots : forall arc0 arc1 tl,
+  valid_first_pair arc0 arc1 -> Forall arc_ok tl ->
+  exists bs, set_arcs (arc0 :: arc1 :: tl) = SetOk bs /\
+    forall slots, get_arcs_into bs slots
+                  = Some (length (arc0 :: arc1 :: tl), firstn slots (arc0 :: arc1 :: tl)).
+Proof. exact oid_roundtrip_slots. Qed.
+Print Assumptions C17_oid_roundtrip_slots.
+
+(* the documented sizing idiom: ask with no slots, allocate, ask again *)
+Theorem C17_oid_sizing_idiom : forall arc0 arc1 tl,
+  valid_first_pair arc0 arc1 -> Forall arc_ok tl ->
+  exists bs n, set_arcs (arc0 :: arc1 :: tl) = SetOk bs /\
+    get_arcs_into bs 0 = Some (n, []) /\
+    get_arcs_into bs n = Some (n, arc0 :: arc1 :: tl).
+Proof. exact oid_sizing_idiom. Qed.
+Print Assumptions C17_oid_sizing_idiom.
+
+Theorem C17_reloid_roundtrip_slots : forall arcs, Forall arc_ok arcs ->
+  exists bs, reloid_set_arcs arcs = SetOk bs /\
+    forall slots, reloid_get_arcs_into bs slots = Some (length arcs, firstn slots arcs).
+Proof. exact reloid_roundtrip_slots. Qed.
+Print Assumptions C17_reloid_roundtrip_slots.
+
+(* the text parser: every text, every capacity *)
+Theorem C17_parse_arcs_into : forall cs slots,
+  parse_arcs_into cs slots =
+  match parse_arcs cs with POk l _ => Some (length l, firstn slots l) | _ => None end.
+Proof. exact parse_arcs_into_spec. Qed.
+Print Assumptions C17_parse_arcs_into.
+
+Theorem C17_parse_arcs_array_contract : forall cs arr l e, parse_arcs cs = POk l e ->
+  exists arr', parse_arcs_arr cs arr = QOk (length l) arr' e /\
+               length arr' = length arr /\
+               firstn (Nat.min (length l) (length arr)) arr' = firstn (length arr) l /\
+               skipn (length l) arr' = skipn (length l) arr.
+Proof. exact parse_arcs_arr_contract. Qed.
+Print Assumptions C17_parse_arcs_array_contract.
+
+Theorem C17_oid_text_slots : forall arcs slots, arcs <> [] -> Forall arc_ok arcs ->
+  parse_arcs_into (oid_text arcs) slots = Some (length arcs, firstn slots arcs).
+Proof. exact oid_text_slots. Qed.
+Print Assumptions C17_oid_text_slots.
+
+Theorem C17_oid_text_slots_ws : forall dss ws1 ws2 slots,
+  dss <> [] -> Forall numeral_ok dss -> ws_ok ws1 -> ws_ok ws2 ->
+  parse_arcs_into (ws1 ++ dotted dss ++ ws2) slots
+  = Some (length dss, firstn slots (map num dss)).
+Proof. exact oid_text_slots_ws. Qed.
+Print Assumptions C17_oid_text_slots_ws.
+
+(* get_single_arc / get_first_arcs handed the first k octets of a buffer that
+   starts with a subidentifier: nothing / EINVAL / the value, by k alone *)
+Theorem C17_single_arc_buffer_len : forall v rest k, arc_ok v ->
+  get_single_arc (firstn k (arc_octets v ++ rest)) =
+  if (k =? 0)%nat then GNone
+  else if (k <? length (arc_octets v))%nat then GEinval
+  else GOk v (zlen (arc_octets v)) (firstn (k - length (arc_octets v)) rest).
+Proof. exact single_arc_buffer_len. Qed.
+Print Assumptions C17_single_arc_buffer_len.
+
+Theorem C17_first_arcs_buffer_len : forall arc0 arc1 rest k,
+  valid_first_pair arc0 arc1 ->
+  let e := arc_octets (40 * arc0 + arc1) in
+  get_first_arcs (firstn k (e ++ rest)) =
+  if (k =? 0)%nat then FNone
+  else if (k <? length e)%nat then FEinval
+  else FOk arc0 arc1 (zlen e) (firstn (k - length e) rest).
+Proof. exact first_arcs_buffer_len. Qed.
+Print Assumptions C17_first_arcs_buffer_len.
 
 (* ---------------- calendar arithmetic (the modelled libc) ---------------- *)
 
